@@ -88,7 +88,8 @@ def runPeaksCase (line : String) : String :=
       let x : Pattern := ⟨l1, a⟩; let y : Pattern := ⟨l2, b⟩
       let margins := (List.zip l1 l2).flatMap (fun (q, r) =>
         [relMargin (ratAbs (q.mz - r.mz)) tol, relMargin (ratAbs (q.int - r.int)) tol])
-      (if x.eqv tol y then "1" else "0") ++ "\t" ++ (if Spec.patternEq tol x y then "1" else "0") ++ "\t" ++ minMargin margins
+      -- the specification side uses the tolerance the property documents (1e-3), not the one read from the source
+      (if x.eqv tol y then "1" else "0") ++ "\t" ++ (if Spec.patternEq (1 / 1000) x y then "1" else "0") ++ "\t" ++ minMargin margins
     | _, _, _, _ => "bad-args"
   | _ => "bad-line"
 
@@ -110,9 +111,11 @@ def runPoissonCase (line : String) : String :=
       let ratios := poissonRatios lam (maxIter - 1) 1 ⟨1, 1⟩ 1
       " ".intercalate (ts.map (fun t =>
         let n := poissonN m lamF t maxIter
+        -- the count the PROPERTY defines: λ = mass/1800, cap 255 (literals, whatever the source says now)
+        let nspec := poissonN m 1800 t 255
         -- margins of every comparison the loop made, for the boundary rule
         let margins := (ratios.take (min n (maxIter - 1))).map (relMargin · (1 - t))
-        toString n ++ ":" ++ minMargin margins))
+        toString n ++ ":" ++ minMargin margins ++ ":" ++ toString nspec))
     | _, _ => "bad-args"
   | ["mz", m, z, c] =>
     match parseRat? m, z.toInt?, parseRat? c with
